@@ -620,6 +620,45 @@ fn multi_file(t: &mut Tape) -> Project {
     Project { files, main: "/p/main.sy".into(), std: !t.chance(1, 4), require: None }
 }
 
+/// Otherwise valid projects whose entry point is bound in an unusual way: `start` as an import alias, a namespace, a
+/// value, a mutable / parameterised / pure function, defined only in another file, twice, or not at all.
+fn entry_points(t: &mut Tape) -> Project {
+    let other = "answer :: 42\nrun :: fn do\n    print(answer)\nend\n";
+    let other_with_start = "answer :: 42\nstart :: fn do\n    print(answer)\nend\n";
+    let body = "main :: fn do\n    print(1)\nend\n";
+    let mut files = BTreeMap::new();
+    let main: String = match t.below(16) {
+        0 => format!("use other as start\n{}", body),
+        1 => format!("from other use run as start\n{}", body),
+        2 => format!("from other use answer as start\n{}", body),
+        3 => {
+            files.insert("/p/start.sy".to_string(), other.to_string());
+            format!("use start\n{}", body)
+        }
+        4 => {
+            files.insert("/p/other.sy".to_string(), other_with_start.to_string());
+            format!("from other use start\n{}", body)
+        }
+        5 => {
+            files.insert("/p/other.sy".to_string(), other_with_start.to_string());
+            format!("use other\n{}", body)
+        }
+        6 => format!("use other\nstart :: other.run\n{}", body),
+        7 => format!("{}start :: 1\n", body),
+        8 => format!("{}start := fn do\n    main()\nend\n", body),
+        9 => format!("{}start :: fn a: int do\n    main()\nend\n", body),
+        10 => format!("{}start :: pu do\nend\n", body),
+        11 => format!("{}start :: fn -> int do\n    1\nend\n", body),
+        12 => format!("{}Start :: blob {{ a: int }}\nstart :: Start {{ a: 1 }}\n", body),
+        13 => format!("{}start :: fn do\n    main()\nend\nstart :: fn do\nend\n", body),
+        14 => format!("{}start :: main\n", body),
+        _ => body.to_string(),
+    };
+    files.entry("/p/other.sy".to_string()).or_insert_with(|| other.to_string());
+    files.insert("/p/main.sy".to_string(), main);
+    Project { files, main: "/p/main.sy".into(), std: !t.chance(1, 3), require: None }
+}
+
 static COUNTER: AtomicU64 = AtomicU64::new(0);
 
 impl Check for C07 {
@@ -630,9 +669,10 @@ impl Check for C07 {
     fn generate(&self, u: &mut Unstructured, _tier: Tier) -> Option<Case> {
         let mut t = Tape::new(u);
         let c = corpus();
-        let (project, origin) = match t.weighted(&[20, 30, 15, 15, 20, 25, 25, 15, 20, 15]) {
+        let (project, origin) = match t.weighted(&[20, 30, 15, 15, 20, 25, 25, 15, 20, 15, 6]) {
             8 => (Project::single(type_knots(&mut t)), "type-knots"),
             9 => (Project::single(type_grammar(&mut t)), "type-grammar"),
+            10 => (entry_points(&mut t), "entry-points"),
             6 => {
                 let a = if t.chance(2, 3) { generated_program(&mut t) } else { t.pick(c).clone() };
                 (Project::single(identifier_mutation(&mut t, &a)), "identifier-mutation")
